@@ -868,6 +868,7 @@ def pair_child(spec_path: str) -> None:
     with open(spec_path, encoding="utf-8") as f:
         job = json.load(f)
     tokens = job["tokens"]
+    sections()  # the harness' own view of properties.yaml (parsed once here instead of once per history)
     results = []
     for x, y in job["histories"]:
         rd, wr = os.pipe()
@@ -1087,7 +1088,7 @@ def run(ctx: Ctx) -> int:
                     raise HarnessError(
                         f"vacuous exploration: no refused call / no follower needing encoding after its first character for {lang}/{cfg}: {h}"
                     )
-        if pair_stats["distinct_first_nodes"] != pair_stats["nodes"] or pair_stats["histories"] < len(pair_nodes(True)) ** 2:
+        if pair_stats["distinct_first_nodes"] < pair_stats["nodes"] or pair_stats["histories"] < len(pair_nodes(True)) ** 2:
             raise HarnessError(f"vacuous exploration: configuration histories incomplete: {pair_stats}")
         if pair_leak_witnesses() < 2:
             raise HarnessError("vacuous exploration: no token that one configuration reserves and another one accepts as it is")
@@ -1167,7 +1168,10 @@ def run(ctx: Ctx) -> int:
         "Language.filter_id (called twice: cold + warm cache) and judged by the configuration-derived oracle; tokens are "
         "de-duplicated so every tuple is counted once; non-trivial = the call did not return its input unchanged "
         "(encoded, stropped, rewritten by a failure handler, or raised); distinct_outcomes = distinct (language, "
-        "input facts [Syntax ok/needs Encoding/Reserved word/reserved Pattern], result shape) classes",
+        "input facts [Syntax ok/needs Encoding/Reserved word/reserved Pattern], result shape) classes; the history families are "
+        "counted separately and not as evaluations: refusal_history_followups = calls made directly after a refused call and compared "
+        "with the outcome of the same call on an object that never refused, configuration_history_comparisons = calls on a language "
+        "compared with the same call on the same (language, configuration) created first in its process",
         "bound_completed": f"all {len(ALPHABET)}-symbol strings of length 1..{CORE_MAX_LEN} + {len(words)} reserved words x variants + "
         f"witness/near-miss per reserved pattern ({len(configured_patterns())} patterns) + exotic strings len<=3 "
         f"({len(core)} core tokens); length {FULL_LEN}: {len5_done}/{len5_space} strings; x {len(ID_TYPES)} id types x "
